@@ -95,8 +95,15 @@ class TransformationsFilter(BaseFilter):
 
     def filter(self, glyph):
         matrix = self.context.matrix
-        if matrix == Identity or not (glyph or glyph.components or glyph.anchors):
+        if matrix == Identity:
             return False  # nothing to do
+        if not (glyph or glyph.components or glyph.anchors):
+            # nothing to draw, but the advance (e.g. of 'space') is scaled like any other
+            size = matrix.transformVector((glyph.width, glyph.height))
+            if size == (glyph.width, glyph.height):
+                return False
+            glyph.width, glyph.height = size
+            return True
 
         modified = self.context.modified
         glyphSet = self.context.glyphSet
